@@ -229,6 +229,9 @@ def run(ctx):
             truth["E_L"].set(value=rng.uniform(20, 100))
             truth["t"].set(value=rng.uniform(1e-7, 4e-7))
             truth["R"].set(value=10e-6)
+        if mk == "sneddon_spher_approx" and rng.random() < 0.4:
+            # a small sphere pushed deep (the radius is only bounded below): depths of more than twice the radius
+            truth["R"].set(value=5e-7)
         cp = truth["contact_point"].value
         n_app = rng.choice([120, 300, 800] if ctx.tier == "quick" else [120, 300, 800, 1500])
         depth = rng.choice([8e-7, 1.2e-6])
